@@ -8,6 +8,7 @@ structure DS where
   holders : List Nat := []      -- values whose context was handed out, in order
   waiting : Nat := 0
   failAcq : Option Nat := none   -- the next acquire script on this key fails with a server error
+  sib : Sib.St := { noloop := true }
 
 def runningIdx (s : Sys) (v : Nat) : List Nat := (List.range s.n).filter fun i => (s.hs v).mons i == .running
 
@@ -60,9 +61,16 @@ def fin (d : DS) : DS × String := let d' := settleLoop d 50; (d', stateStr d')
 def ownersStr (s : Sys) : String :=
   ",".intercalate ((List.range s.n).map fun i => match s.regs i with | some v => toString v | none => "-")
 
+def sibStr (s : Sib.St) : String :=
+  s!"held={(s.regs.filter Option.isSome).length} parked={s.parked} live={s.live}"
+
+def sibOut (d : DS) (es : List Sib.Ev) : DS × String :=
+  let s := Sib.run d.sib es
+  ({ d with sib := s }, sibStr s)
+
 def step (d : DS) (ws : List String) : DS × String :=
   match ws with
-  | ["reset", m] => ({ sys := { m := m.toNat?.getD 1 } }, "ok")
+  | "reset" :: m :: rest => ({ sys := { m := m.toNat?.getD 1 }, sib := { noloop := rest != ["noloop=0"] } }, "ok")
   | [op, _, v, i] =>
     let v := v.toNat?.getD 0
     let i := i.toNat?.getD 0
@@ -81,6 +89,19 @@ def step (d : DS) (ws : List String) : DS × String :=
   | "force" :: _ =>
     let (t, ok, fa) := attempt d.sys d.nextVal true d.failAcq
     fin { d with sys := t, nextVal := d.nextVal + 1, holders := if ok then d.holders ++ [d.nextVal] else d.holders, failAcq := fa }
+  | ["sib.setup"] => sibOut d [.park 0, .park 0]
+  | ["sib.hdel", i] =>
+    -- the holder's deletion, then (while the first attempt's cleanup is held back) whoever is woken attempts
+    let i := i.toNat?.getD 0
+    let s1 := Sib.next d.sib (.otherDel i)
+    let s2 := if s1.token ∧ 0 < s1.parked then
+        (if i == 0 then Sib.run s1 [.wake, .ownAcq 7 0, .ownRefused 1]       -- A: cleanup gated, not parked
+         else Sib.settle s1 4 20)                                            -- B: a complete (failing) attempt
+      else s1
+    ({ d with sib := s2 }, sibStr s2)
+  | ["sib.adel"] =>
+    let s1 := Sib.settle (Sib.run d.sib [.ownDel 7 0, .repark]) 4 30
+    ({ d with sib := s1 }, sibStr s1)
   | ["failacq", i] => fin { d with failAcq := some (i.toNat?.getD 0) }
   | ["extset", i] => fin { d with sys := next d.sys (.extset (i.toNat?.getD 0) 0) }
   | "with" :: _ => fin { d with waiting := d.waiting + 1 }
